@@ -680,7 +680,9 @@ _SUMMARY_CACHE = {}
 def summarize(F, inst, depth, stack):
     """Return-term and return-facts of a repo function, over its ('arg', i, ty) atoms."""
     from . import guard
-    ck = (id(F), inst["key"] if "key" in inst else inst["path"])
+    # the result depends on how much inlining budget is left: cache per depth (otherwise the first caller's depth decides
+    # what every later caller sees, i.e. results would depend on the order of the analyses)
+    ck = (id(F), inst["key"] if "key" in inst else inst["path"], depth)
     if ck in _SUMMARY_CACHE:
         return _SUMMARY_CACHE[ck]
     _SUMMARY_CACHE[ck] = None
